@@ -74,6 +74,7 @@ func ruleC20(c *Check) {
 	c.mutateWhileIterating()
 	c.nilMapWrites(fs)
 	c.fractionValidators("C20.3")
+	c.panickingConversions(fs)
 	// the callbacks of an owning module are called without a nil test: contexts are created only for modules that registered both
 	c.constructorRules("C20.3", map[string]bool{"callbacks": true})
 	// slicing of scanned store keys is justified above by the key grammar: decide the cut positions (K4) here as well, for every
@@ -1179,4 +1180,30 @@ func (c *Check) nilMapWrites(fs []*Func) {
 	}
 	c.Sites += n
 	c.setInfo("map_write_sites", n)
+}
+
+// panickingConversions (C20.3): conversions of the SDK's big numbers to machine integers panic when the value does not fit
+// (sdk.Int.Int64 / Uint64, sdk.Dec.TruncateInt64 / RoundInt64, sdk.Uint.Uint64). Consensus-reachable module code uses none
+// today; a use is reported unless the path has bounded the operand (no bounding idiom is recognised yet, so any use is
+// reported — a height computed "overflow-safely" in sdk.Int and converted back halts the chain where plain int64
+// arithmetic wrapped).
+func (c *Check) panickingConversions(fs []*Func) {
+	bad := map[string]bool{
+		"sdk.Int.Int64": true, "sdk.Int.Uint64": true, "sdk.Dec.TruncateInt64": true, "sdk.Dec.RoundInt64": true, "sdk.Uint.Uint64": true,
+	}
+	n := 0
+	for _, f := range fs {
+		seen := map[token.Pos]bool{}
+		for _, pa := range c.P.PathsOf(f) {
+			for _, ev := range pa.Events {
+				if ev.Kind == EvCall && bad[ev.CI.name] && !seen[ev.Pos] {
+					seen[ev.Pos] = true
+					n++
+					c.fail("C20.3", unitConstruct(f, "panicking-conversion:"+ev.CI.name), ev.Pos,
+						ev.CI.name+" panics when the value does not fit the machine integer; nothing on the path bounds "+shortTerm(ev.CI.recv))
+				}
+			}
+		}
+	}
+	c.setInfo("panicking_conversions", n)
 }
